@@ -29,6 +29,11 @@ func (t Test) String() string {
 		return "*"
 	case "prefix:*":
 		return t.Prefix + ":*"
+	case "pi":
+		if t.Local != "" {
+			return "processing-instruction('" + t.Local + "')"
+		}
+		return "processing-instruction()"
 	}
 	return t.Kind + "()"
 }
@@ -240,6 +245,11 @@ func (n *Num) render(sb *strings.Builder) {
 	sb.WriteString(strconv.FormatFloat(n.V, 'f', -1, 64))
 }
 
+// Var is a variable reference ($name).
+type Var struct{ Name string }
+
+func (v *Var) render(sb *strings.Builder) { sb.WriteString("$" + v.Name) }
+
 // Render gives the canonical string of an expression.
 func Render(e Expr) string {
 	var sb strings.Builder
@@ -396,5 +406,7 @@ func skel(e Expr, sb *strings.Builder) {
 		sb.WriteString("S")
 	case *Num:
 		sb.WriteString("#")
+	case *Var:
+		sb.WriteString("$V")
 	}
 }
